@@ -610,7 +610,7 @@ def real_build(doc: dict[str, Any], files: dict[str, str], full_sdist: bool = Fa
 # the model side
 # ----------------------------------------------------------------------------------------
 
-def model_line(doc: dict[str, Any], files: dict[str, str], real: Real) -> str:
+def model_line(doc: dict[str, Any], files: dict[str, str], real: Real, op: str = "meta") -> str:
     """pyproject-level fields + the real-object inputs → driver request `meta`"""
     a: list[str] = []
     p = doc.get("project", {})
@@ -688,7 +688,24 @@ def model_line(doc: dict[str, Any], files: dict[str, str], real: Real) -> str:
     for e in real.inputs.get("readme_texts", []):
         kv("readme.content", e)
     kv("format_python", real.inputs.get("format_python", ""))
-    return core.line("meta", *a)
+    # inputs of the validator model only
+    for nm in (p.get("optional-dependencies") or {}):
+        kv("p.optdep", nm)
+    for nm in (t.get("extras") or {}):
+        kv("t.extraname", nm)
+    deps = t.get("dependencies")
+    for nm, specs in (deps.items() if isinstance(deps, dict) else ()):
+        kv("t.dep", nm)
+        for spec in (specs if isinstance(specs, list) else [specs]):
+            kv("t.dep.spec", "")
+            if isinstance(spec, dict):
+                for k2, v2 in spec.items():
+                    if isinstance(v2, str):
+                        kv("t.dep.kv", k2, v2)
+                for e in (spec.get("extras") or []):
+                    if isinstance(e, str):
+                        kv("t.dep.extra", e)
+    return core.line(op, *a)
 
 
 def parse_msg_reply(f: list[str]) -> dict[str, Any]:
@@ -1052,7 +1069,7 @@ def gen_malformed(ctx: core.Ctx, n: int) -> list[dict[str, Any]]:
         brk = rng.choice(BREAKS)
         kind = rng.choice(["description", "keywords", "author-name", "author-email", "url-label", "url-value", "classifier", "content-type",
                            "name", "version", "bad-email", "bad-uri", "bad-name", "bad-version", "requires-python", "homepage", "extra-name",
-                           "dependency"])
+                           "dependency", "requires-python-trailing", "extra-trailing", "legacy-dep-name", "legacy-dep-source", "legacy-dep-extras"])
         key: str | None = None
         if kind == "description":
             tbl["description"] = (d["description"] or "x") + brk + INJECT
@@ -1113,6 +1130,29 @@ def gen_malformed(ctx: core.Ctx, n: int) -> list[dict[str, Any]]:
         elif kind == "dependency" and style == "project":
             tbl["dependencies"] = ["foo>=1" + brk + INJECT]
             key = "dependency-line-break"
+        elif kind == "requires-python-trailing" and style == "project":
+            tbl["requires-python"] = rng.choice([">=3.8", ">=3.9,<4.0", "~=3.10"]) + rng.choice(["\n", "\r\n", "\n\n"])
+            key = "requires-python-trailing-newline"
+        elif kind == "extra-trailing":
+            nm = rng.choice(["ex", "dev-tools", "X_y"]) + rng.choice(["\n", "\r\n"])
+            if style == "project":
+                tbl["optional-dependencies"] = {nm: ["foo>=1"]}
+            else:
+                tbl.setdefault("dependencies", {})["foo"] = Inline({"version": ">=1", "optional": True})
+                tbl["extras"] = {nm: ["foo"]}
+            key = "extra-name-trailing-newline"
+        elif kind == "legacy-dep-name" and style == "legacy":
+            tbl.setdefault("dependencies", {})["foo" + brk + INJECT] = "*"
+            key = "dependency-source-line-break"
+        elif kind == "legacy-dep-source" and style == "legacy":
+            which = rng.choice(["url", "branch", "tag", "rev", "subdirectory"])
+            spec = {"url": "https://example.com/foo-1.0.tar.gz"} if which == "url" else {"git": "https://example.com/foo.git", which: "x"}
+            spec[which] = spec[which] + brk + INJECT
+            tbl.setdefault("dependencies", {})["foo"] = Inline(spec)
+            key = "dependency-source-line-break"
+        elif kind == "legacy-dep-extras" and style == "legacy":
+            tbl.setdefault("dependencies", {})["foo"] = Inline({"version": "*", "extras": ["a" + brk + INJECT]})
+            key = "dependency-source-line-break"
         else:
             continue
         out.append({"d": d, "style": style, "doc": doc, "files": files, "pair": pair, "finding_key": key, "expect_valid": False, "kind": kind})
@@ -1148,6 +1188,17 @@ def fixed_malformed() -> list[dict[str, Any]]:
         ("readme-content-type-line-break", "project", "content-type",
          {"project": {**P, "readme": Inline({"file": "R.md", "content-type": "text/markdown" + inj})}}, {"R.md": "hello\n"}),
         ("name-line-break", "legacy", "name", {"tool": {"poetry": {**L, "name": "pkg" + inj}}}, {}),
+        ("requires-python-trailing-newline", "project", "requires-python-trailing", {"project": {**P, "requires-python": ">=3.8\n"}}, {}),
+        ("extra-name-trailing-newline", "project", "extra-trailing", {"project": {**P, "optional-dependencies": {"ex\n": ["foo>=1"]}}}, {}),
+        ("extra-name-trailing-newline", "legacy", "extra-trailing",
+         {"tool": {"poetry": {**L, "dependencies": {"foo": Inline({"version": ">=1", "optional": True})}, "extras": {"ex\n": ["foo"]}}}}, {}),
+        ("dependency-source-line-break", "legacy", "legacy-dep-name", {"tool": {"poetry": {**L, "dependencies": {"foo" + inj: "*"}}}}, {}),
+        ("dependency-source-line-break", "legacy", "legacy-dep-source",
+         {"tool": {"poetry": {**L, "dependencies": {"foo": Inline({"git": "https://example.com/foo.git", "branch": "main" + inj})}}}}, {}),
+        ("dependency-source-line-break", "legacy", "legacy-dep-source",
+         {"tool": {"poetry": {**L, "dependencies": {"foo": Inline({"url": "https://example.com/foo-1.0.tar.gz" + inj})}}}}, {}),
+        ("dependency-source-line-break", "legacy", "legacy-dep-extras",
+         {"tool": {"poetry": {**L, "dependencies": {"foo": Inline({"version": "*", "extras": ["a" + inj]})}}}}, {}),
     ]
     return [{"d": base, "style": st, "doc": doc, "files": files, "pair": 3 * 10 ** 6 + i, "finding_key": key, "expect_valid": False, "kind": kind}
             for i, (key, st, kind, doc, files) in enumerate(rows)]
@@ -1174,11 +1225,39 @@ def run_malformed(ctx: core.Ctx, cases: list[dict[str, Any]], stream: str = "mal
         ctx.count(f"{stream}:{kind}:accepted")
         text = (r.metadata or b"").decode("utf-8")
         hs = email_parse(text)["headers"]
-        injected = [(k, v) for k, v in hs if "evil-package" in v and k == "Requires-Dist"]
+        injected = [(k, v) for k, v in hs if "evil-package" in v and k.lower() == "requires-dist"]
         if injected:
             ctx.violate(c.get("finding_key") or f"injection:{kind}",
                         f"[{c['style']}] a line break in {kind} is accepted by validation and adds the header {injected[0]!r} to METADATA", witness(c))
+            continue
+        # an accepted document must still be one header block followed by its readme: no defect, and a body only if
+        # a readme was declared (a value ending in a line break leaves a blank line, which ends the header block early)
+        pm = email_parse(text)
+        has_readme = bool(c["doc"].get("project", {}).get("readme") or c["doc"].get("tool", {}).get("poetry", {}).get("readme"))
+        if pm["defects"] or pm["unixfrom"] is not None or (not has_readme and pm["body"] != ""):
+            ctx.violate(c.get("finding_key") or f"truncation:{kind}",
+                        f"[{c['style']}] a line break in {kind} is accepted by validation and METADATA no longer parses as one header block: "
+                        f"defects={pm['defects']} body starts {pm['body'][:60]!r}", witness(c))
     ctx.stream(stream, len(cases), 0)
+
+
+def run_validator(ctx: core.Ctx, cases: list[dict[str, Any]], stream: str = "validator") -> None:
+    """model of Factory._validate_single_line_fields (tables regenerated from source) vs the real method, both tables"""
+    from poetry.core.factory import Factory
+    lines = [model_line(c["doc"], c["files"], Real(), op="vsl") for c in cases]
+    replies = core.run_driver(lines)
+    dis = 0
+    for c, m in zip(cases, replies):
+        doc = c["doc"]
+        want = ["ok"]
+        for loc, table in (("project", doc.get("project")), ("tool.poetry", doc.get("tool", {}).get("poetry", {}))):
+            want += Factory._validate_single_line_fields(loc, table or {})
+        ctx.case("vsl:" + toml_dumps(doc), nontrivial=len(want) > 1)
+        ctx.count("validator:" + ("errors" if len(want) > 1 else "clean"))
+        if m != want:
+            dis += 1
+            ctx.disagree(stream, {"doc": to_jsonable(doc)}, want, m)
+    ctx.stream(stream, len(cases), dis)
 
 
 # --- fixed witnesses of the findings reported for this commit (each has its own known-finding key) ------------
@@ -1312,8 +1391,11 @@ def correspondence(ctx: core.Ctx) -> None:
             run_cases(ctx, cases, "pyproject")
             done += len(cases)
         run_cases(ctx, finding_cases(), "findings")
-        run_malformed(ctx, fixed_malformed(), "malformed-fixed")
-        run_malformed(ctx, gen_malformed(ctx, ctx.budget(60, 1500)))
+        fixed = fixed_malformed()
+        run_malformed(ctx, fixed, "malformed-fixed")
+        mal = gen_malformed(ctx, ctx.budget(90, 1500))
+        run_malformed(ctx, mal)
+        run_validator(ctx, fixed + mal + gen_cases(ctx, ctx.budget(100, 2000)))
     finally:
         cleanup()
 
